@@ -578,10 +578,13 @@ func (txn *Txn) commitAndSend() (func() error, error) {
 	// var b strings.Builder
 	// fmt.Fprintf(&b, "Read: %d. Commit: %d. reads: %v. writes: %v. Keys: ",
 	// 	txn.readTs, commitTs, txn.reads, txn.conflictKeys)
-	for _, e := range txn.pendingWrites {
+	// duplicateWrites holds, in call order, the earlier entries that a later call for the same
+	// key replaced in pendingWrites. They must be applied first so that, for the same key and
+	// version, the entry of the later call is the one that remains.
+	for _, e := range txn.duplicateWrites {
 		processEntry(e)
 	}
-	for _, e := range txn.duplicateWrites {
+	for _, e := range txn.pendingWrites {
 		processEntry(e)
 	}
 
